@@ -243,6 +243,61 @@ func ffiGen(n int, s ffiSig, ks []ffiKind, qualifier string) (ddpDecl, ddpCall, 
 			expected += ks[p.k].afterVal
 		}
 	}
+	// the same call from inside a DDP function that forwards its own BY-VALUE parameters (by Referenz where
+	// the extern wants one): the C function must see and change the callee's copies, never the variables
+	// of the caller one level up, and every copy is freed exactly once
+	if len(s.params) > 0 {
+		var wn, wt, wa, fwd []string
+		for i, p := range s.params {
+			wn = append(wn, fmt.Sprintf("w%d", i))
+			wt = append(wt, ks[p.k].name)
+			wa = append(wa, fmt.Sprintf("<w%d>", i))
+			fwd = append(fwd, fmt.Sprintf("w%d", i))
+		}
+		indent := func(t string) string {
+			return "\t" + strings.ReplaceAll(strings.TrimSuffix(t, "\n"), "\n", "\n\t") + "\n"
+		}
+		h := fmt.Sprintf("Die Funktion weiter_%d", n)
+		if len(wn) == 1 {
+			h += " mit dem Parameter " + wn[0] + " vom Typ " + wt[0] + ","
+		} else {
+			h += " mit den Parametern " + join(wn) + " vom Typ " + join(wt) + ","
+		}
+		call.WriteString(h + " gibt nichts zurück, macht:\n")
+		inner := "rufe " + fname + " " + strings.Join(fwd, " ")
+		expected += fname + ":"
+		for _, p := range s.params {
+			expected += ks[p.k].cview
+		}
+		expected += "\n"
+		if s.ret < 0 {
+			call.WriteString(indent(inner + "."))
+		} else {
+			call.WriteString(indent(fmt.Sprintf("%s wr ist %s.", ks[s.ret].decl, inner)))
+			call.WriteString(indent(fmt.Sprintf(ks[s.ret].ddpshow, "wr")))
+			expected += ks[s.ret].retView
+		}
+		for i, p := range s.params {
+			call.WriteString(indent(fmt.Sprintf(ks[p.k].ddpshow, fmt.Sprintf("w%d", i))))
+			if p.ref {
+				expected += ks[p.k].afterRef
+			} else {
+				expected += ks[p.k].afterVal
+			}
+		}
+		fmt.Fprintf(&call, "Und kann so benutzt werden:\n\t\"leite %d %s\"\n\n", n, strings.Join(wa, " "))
+		var us []string
+		for i, p := range s.params {
+			un := fmt.Sprintf("u%d_%d", n, i)
+			fmt.Fprintf(&call, "%s %s ist %s.\n", ks[p.k].decl, un, ks[p.k].init)
+			us = append(us, un)
+		}
+		fmt.Fprintf(&call, "leite %d %s.\n", n, strings.Join(us, " "))
+		for i, p := range s.params {
+			call.WriteString(fmt.Sprintf(ks[p.k].ddpshow, us[i]))
+			expected += ks[p.k].afterVal // the caller's variables are untouched whatever the extern did to the copies
+		}
+	}
 	ddpCall = call.String()
 	return
 }
